@@ -513,7 +513,7 @@ fn run_b(c: &mut Case, iterations: usize) {
 pub fn run(ctx: &Ctx, evidence: Option<&PathBuf>) -> i32 {
     let big = ctx.scale == Scale::Full;
     ctx.run_fixed("directed", ctx.dn(300), |c| run_a(c, c.index % 4 == 0 && big));
-    let n = ctx.size(30_000, 3_000_000);
+    let n = ctx.size3(30_000, 3_000_000, 6);
     ctx.run_cases("writers", n, |c| {
         let b = big && c.rng.chance(1, 6);
         run_a(c, b);
@@ -521,7 +521,7 @@ pub fn run(ctx: &Ctx, evidence: Option<&PathBuf>) -> i32 {
     // real threads (also the workload for TSan / Miri many-seeds)
     let (nt, iters) = match ctx.scale {
         Scale::Full => (ctx.size(60, 2_000), 300),
-        Scale::San => (20, 100),
+        Scale::San => (40, 300),
         Scale::Miri => (1, 6),
     };
     ctx.run_cases_serial("threads", nt, |c| run_b(c, iters));
